@@ -2,7 +2,7 @@ import BrushVerif.Model.Wire
 import BrushVerif.Model.ArithParse
 import BrushVerif.Gen.ArithLevels
 /-! Driver for C07: `P <expr>` (parse → S-expression) and `E <expr> <name>=<value>…` (evaluate in an
-environment of scalars; prints value-or-error and the variables afterwards).  Same canonical output as
+environment of scalars and indexed arrays; prints value-or-error and the variables afterwards).  Same canonical output as
 `harness/src/bin/c07.rs`. -/
 namespace BrushVerif.Drv.C07
 open BrushVerif.Wire BrushVerif.Arith
@@ -23,10 +23,30 @@ def dumpVars (env : Env) : Str :=
   let items := varUniverse.filterMap (fun n => (env.get n).map (fun v => n ++ "=".toList ++ showVal v))
   if items.isEmpty then "-".toList else joinWith " ".toList items
 
+/-- split at every `c` -/
+def splitOn (c : Char) : Str → List Str
+  | [] => [[]]
+  | x :: xs =>
+    match splitOn c xs with
+    | [] => [[]]
+    | h :: t => if x = c then [] :: h :: t else (x :: h) :: t
+
+/-- positions 0.. for the elements of `name=(v0 v1 …)` -/
+def enumFrom : Nat → List Str → List (Nat × Str)
+  | _, [] => []
+  | i, v :: vs => (i, v) :: enumFrom (i + 1) vs
+
+/-- `name=value` (scalar) or `@name=v0,v1,…` (indexed array with elements 0..) -/
 def parseAssign (t : Str) : Option (Str × Val) :=
-  match t.span (· != '=') with
-  | (n, '=' :: v) => some (n, .scalar (unesc v))
-  | _ => none
+  match t with
+  | '@' :: t' =>
+    (match t'.span (· != '=') with
+     | (n, '=' :: v) => some (n, .arr (if v.isEmpty then [] else enumFrom 0 ((splitOn ',' v).map unesc)))
+     | _ => none)
+  | _ =>
+    match t.span (· != '=') with
+    | (n, '=' :: v) => some (n, .scalar (unesc v))
+    | _ => none
 
 def handle (toks : List Str) : Str :=
   match toks with
